@@ -264,6 +264,19 @@ var callSiteCache *struct {
 	escaped map[*ssa.Function]bool
 }
 
+var callSiteInstr = map[*ssa.CallCommon]ssa.Instruction{}
+
+// uniqueCallSite: the one instruction that calls the new unexported helper fn (see uniqueCallArg), or nil.
+func (c *Ctx) uniqueCallSite(fn *ssa.Function) ssa.Instruction {
+	if c.uniqueCallArg(fn, 0) == nil && (fn == nil || len(fn.Params) > 0) {
+		return nil
+	}
+	if callSiteCache == nil || callSiteCache.escaped[fn] || len(callSiteCache.sites[fn]) != 1 {
+		return nil
+	}
+	return callSiteInstr[callSiteCache.sites[fn][0]]
+}
+
 // uniqueCallArg: if fn is a new unexported function with exactly one static call site and no use as a value, the
 // argument passed for parameter number idx there.
 func (c *Ctx) uniqueCallArg(fn *ssa.Function, idx int) ssa.Value {
@@ -298,6 +311,7 @@ func (c *Ctx) uniqueCallArg(fn *ssa.Function, idx int) ssa.Value {
 							callSiteCache.escaped[g] = true
 						}
 						callSiteCache.sites[g] = append(callSiteCache.sites[g], cc)
+						callSiteInstr[cc] = i
 						// the function value itself must not also be passed as an argument
 						for _, a := range cc.Args {
 							if a == ssa.Value(g) {
